@@ -153,6 +153,7 @@ let dispatch op args = match op, args with
   | "padded", [x; fill; left] -> let (md, sp) = op_padded (zll x) (zi fill) (zi left <> Z0) in L [vrows md; L (List.map vzl sp)]
   | "colsum", [x] -> let (md, sp) = op_colsum (zll x) in L [vzl md; vzl sp]
   | "colmean", [x] -> let vpl l = L (List.map (fun (a, b) -> L [vz a; vz b]) l) in let (md, sp) = op_colmean (zll x) in L [vpl md; vpl sp]
+  | "rowmean", [x] -> let vpl l = L (List.map (fun (a, b) -> L [vz a; vz b]) l) in let (md, sp) = op_rowmean (zll x) in L [(match md with None -> N | Some l -> vpl l); vpl sp]
   | "colcounts", [x] -> let (md, sp) = op_colcounts (zll x) in L [vzl md; vzl sp]
   | "where", [x; L m; y] -> let (md, sp) = op_where (zll x) (List.map bl m) (zll y) in L [vrows md; L (List.map vzl sp)]
   | "where_s", [x; L m; y] -> let (md, sp) = op_where_s (zll x) (List.map bl m) (zi y) in L [vrows md; L (List.map vzl sp)]
